@@ -137,7 +137,7 @@ pub fn stream_case(c: &Collector, cols: u32, lines: u32, chunks: &[Vec<u8>], utf
             let mut rec = Recog::new(utf8);
             rec.feed(&text);
             rec.feed(FLUSH);
-            if rec.in_ground() && !rec.d8 {
+            if rec.in_ground() {
                 if cell.as_deref() != Some("x") {
                     c.violation(mk(
                         format!("stream|wedged|{}", shape),
@@ -209,7 +209,7 @@ pub fn char_case(c: &Collector, cols: u32, lines: u32, chunks: &[String], utf8: 
                 rec.feed(ch);
             }
             rec.feed(FLUSH);
-            if rec.in_ground() && !rec.d8 && cell.as_deref() != Some("x") {
+            if rec.in_ground() && cell.as_deref() != Some("x") {
                 c.violation(mk(
                     format!("chars|wedged|{}", shape),
                     format!("after {} the follow-up ESC c x left cell (0,0) = {:?}", chunks.iter().map(|x| esc(x)).collect::<Vec<_>>().join(" | "), cell),
@@ -644,6 +644,51 @@ pub fn c01(c: &Collector, g: &mut Guard) {
             }
         });
     }
+    // columns at the top of the u32 range ("resize() to any size of at least 1x1"): the cursor is taken
+    // to the last column with HT and every operation whose cost does not depend on the width is
+    // applied there (x + n must not wrap). Line counts of that size are not explored: the dirty set
+    // is extensional (C16 / C17 want every row index in it), so memory grows with `lines` by design.
+    {
+        let widths: Vec<u32> = vec![u32::MAX, u32::MAX - 1, u32::MAX - 2, u32::MAX - 9998, u32::MAX - 9999, u32::MAX - 10000, 1 << 31, (1 << 31) + 1, (1 << 31) - 1];
+        let eops = edge_ops();
+        fork_map_c01(c, "api.max-width", widths.len(), timeout, |i, cc| {
+            for (k, _) in eops.iter().enumerate() {
+                cc.add_transitions(1);
+                max_width_case(cc, widths[i], k, "E5.api.max-width");
+                cc.count("max_width_cases", 1);
+            }
+        });
+    }
+    // the environment answers too: writes to stdout fail (closed pipe). Diagnostics printed for
+    // unrecognised sequences must not take the parser down.
+    {
+        let mut words: Vec<String> = Vec::new();
+        for f in 0x20u8..0x7f {
+            words.push(format!("\x1b{}", f as char));
+            words.push(format!("\x1b[{}", f as char));
+            words.push(format!("\x1b[5;7{}", f as char));
+            words.push(format!("\x1b#{}", f as char));
+            words.push(format!("\x1b%{}", f as char));
+        }
+        for m in macro_alphabet() {
+            words.push(m.to_string());
+        }
+        let nparts = 8usize;
+        fork_map_c01(c, "stdout-broken", nparts, timeout, |part, cc| {
+            break_stdout();
+            let mut o = HashSet::new();
+            for (i, w) in words.iter().enumerate() {
+                if i % nparts != part {
+                    continue;
+                }
+                for utf8 in [true, false] {
+                    cc.add_transitions(1);
+                    char_case(cc, 5, 3, &[w.clone()], utf8, "E5.stdout-broken", &mut o);
+                    cc.count("stdout_broken_cases", 1);
+                }
+            }
+        });
+    }
     // ---------------------------------------------------------------- API sequences, depth k, display interleaved
     let depth = if thorough { 3 } else { 2 };
     let bfs_geoms: Vec<((u32, u32), usize)> = if thorough { vec![((1, 1), 3), ((2, 1), 3), ((1, 2), 3), ((3, 2), 2)] } else { vec![((1, 1), 2), ((3, 2), 2)] };
@@ -692,8 +737,93 @@ pub fn c01(c: &Collector, g: &mut Guard) {
     g.need(c, "wide_param_transitions");
     g.need(c, "resize_transitions");
     g.need(c, "huge_resize_cases");
+    g.need(c, "max_width_cases");
+    g.need(c, "stdout_broken_cases");
     g.need(c, "api_sequence_transitions");
     g.need(c, "session_cases");
+}
+
+/// Point fd 1 at the write end of a pipe whose read end is closed: every write to stdout fails
+/// with EPIPE from now on (SIGPIPE is ignored by the Rust runtime). Only called in forked workers.
+pub fn break_stdout() {
+    unsafe {
+        let mut fds = [0i32; 2];
+        if libc::pipe(fds.as_mut_ptr()) == 0 {
+            libc::close(fds[0]);
+            libc::dup2(fds[1], 1);
+            libc::close(fds[1]);
+        }
+        libc::signal(libc::SIGPIPE, libc::SIG_IGN);
+    }
+}
+
+/// Operations whose cost does not depend on the screen width when the cursor is in the last column.
+pub fn edge_ops() -> Vec<(&'static str, Vec<Op>)> {
+    let mut v: Vec<(&'static str, Vec<Op>)> = Vec::new();
+    for n in [None, Some(1), Some(2), Some(9998), Some(9999)] {
+        v.push(("cuf", vec![Op::Cuf(n)]));
+        v.push(("ich", vec![Op::Ich(n)]));
+        v.push(("dch", vec![Op::Dch(n)]));
+        v.push(("ech", vec![Op::Ech(n)]));
+        v.push(("cub-cuf", vec![Op::Cub(n), Op::Cuf(n), Op::Cuf(n)]));
+        v.push(("cha", vec![Op::Cha(n)]));
+        v.push(("cup", vec![Op::Cup(n, n)]));
+    }
+    v.push(("draw", vec![Op::Draw("a".into())]));
+    v.push(("draw-wide", vec![Op::Draw("\u{30a2}".into())]));
+    v.push(("draw-mark", vec![Op::Draw("a\u{301}".into())]));
+    v.push(("draw-noawm", vec![Op::Rm(vec![7], true), Op::Draw("ab\u{30a2}".into())]));
+    v.push(("irm-draw", vec![Op::Sm(vec![4], false), Op::Draw("a".into())]));
+    v.push(("tab", vec![Op::Tab, Op::Tab]));
+    v.push(("hts-tab", vec![Op::SetTabStop, Op::Backspace, Op::Tab]));
+    v.push(("el0", vec![Op::El(Some(0))]));
+    v.push(("save-restore", vec![Op::SaveCursor, Op::Cub(Some(5)), Op::RestoreCursor]));
+    v.push(("bs-cr", vec![Op::Backspace, Op::CarriageReturn]));
+    v.push(("pending-save-restore", vec![Op::Draw("a".into()), Op::SaveCursor, Op::RestoreCursor, Op::Cuf(Some(3))]));
+    v
+}
+
+pub fn max_width_case(c: &Collector, w: u32, k: usize, engine: &str) {
+    let eops = edge_ops();
+    let (name, ops) = &eops[k];
+    let mut s = Screen::new(1, 1);
+    let mut steps = vec![Op::Resize(None, Some(w)), Op::Tab];
+    steps.extend(ops.iter().cloned());
+    steps.push(Op::Resize(Some(2), Some(3)));
+    steps.push(Op::Display);
+    steps.push(Op::Draw("z".into()));
+    let mut done: Vec<Op> = Vec::new();
+    for op in steps {
+        if let Err(m) = apply(&mut s, &op) {
+            c.violation(Violation {
+                property: "C01".into(),
+                engine: engine.into(),
+                sig: format!("{}|panic:{}|max-width", op.name(), panic_class(&m)),
+                columns: 1,
+                lines: 1,
+                script: done.clone(),
+                op: Some(op.clone()),
+                detail: format!("on a screen {} columns wide with the cursor in the last column ({}): {} panicked: {}", w, name, op.short(), m),
+                extra: json!({"max_width": w, "edge_op": k}),
+            });
+            return;
+        }
+        if s.cursor.x > s.columns || s.cursor.y >= s.lines {
+            c.violation(Violation {
+                property: "C01".into(),
+                engine: engine.into(),
+                sig: format!("{}|cursor-out-of-bounds|max-width", op.name()),
+                columns: 1,
+                lines: 1,
+                script: done.clone(),
+                op: Some(op.clone()),
+                detail: format!("on a screen {} columns wide ({}): after {} the cursor is at ({}, {})", w, name, op.short(), s.cursor.x, s.cursor.y),
+                extra: json!({"max_width": w, "edge_op": k}),
+            });
+            return;
+        }
+        done.push(op);
+    }
 }
 
 /// resize(l, w) with both dimensions large, then operations that do not materialise the grid,
